@@ -112,12 +112,81 @@ def updated_leaves_case(d, part, parallel_cascade=1):
     c02.compare_trees(got, want, 1, kind, bad, True, final)
 
 
+def toast_fits_case(d, part):
+    """FITS auto-tiling in TOAST mode of two images in different parts of the sky, the first one
+    holding the extremes: the root tile, the returned description and the WTML must carry the range
+    of all leaves, and every ancestor of every leaf must exist."""
+    import toasty
+    from toasty import TilingMethod
+    from astropy.io import fits
+    from astropy.wcs import WCS
+
+    cfg = {"toast_fits": True}
+    part.case(nontrivial=True)
+
+    def bad(clause, detail):
+        part.violation("%s/fits-F32" % clause, "%r: %s" % (cfg, detail), cfg)
+
+    paths = []
+    for i, (ra, dec, lo, hi) in enumerate([(30.0, 40.0, -500.0, 900.0), (200.0, -30.0, 1.0, 2.0)]):
+        w = WCS(naxis=2)
+        w.wcs.ctype = ["RA---TAN", "DEC--TAN"]
+        w.wcs.crval = [ra, dec]
+        w.wcs.cdelt = [-0.25, 0.25]
+        w.wcs.crpix = [20.5, 20.5]
+        data = np.linspace(lo, hi, 1600).reshape(40, 40).astype("f4")
+        p = os.path.join(d, "t%d.fits" % i)
+        fits.PrimaryHDU(data, header=w.to_header()).writeto(p, overwrite=True)
+        paths.append(p)
+    out = os.path.join(d, "toast_out")
+    shutil.rmtree(out, ignore_errors=True)
+    try:
+        with quiet():
+            _o, bld = toasty.tile_fits(paths, out_dir=out, tiling_method=TilingMethod.TOAST, start=3, parallel=1)
+    except Exception as e:
+        bad("toast-fits-raises:%s" % type(e).__name__, repr(e))
+        return
+    tree = c02.read_tree(out, "fits")
+    leaves = {p: t for p, t in tree.items() if p[0] == 3}
+    if not leaves:
+        bad("toast-fits-no-leaves", "no level-3 tiles were written")
+        return
+    fin = np.concatenate([t[0][np.isfinite(t[0])] for t in leaves.values()])
+    lo, hi = np.float32(fin.min()), np.float32(fin.max())
+    root = tree.get((0, 0, 0))
+    if root is None or not root[1] or not (np.isclose(root[1].get("DATAMIN", np.nan), lo, rtol=2e-7) and np.isclose(root[1].get("DATAMAX", np.nan), hi, rtol=2e-7)):
+        bad("range/differs-from-leaf-range/root", "TOAST FITS tiling: root records %r, the leaves span %r/%r" % (root[1] if root else None, float(lo), float(hi)))
+    if not (np.isclose(bld.imgset.data_min, lo, rtol=2e-7) and np.isclose(bld.imgset.data_max, hi, rtol=2e-7)):
+        bad("range/imageset", "TOAST FITS tiling: returned data_min/max %r/%r, leaves span %r/%r" % (bld.imgset.data_min, bld.imgset.data_max, float(lo), float(hi)))
+    missing = []
+    for (n, x, y) in leaves:
+        q = (n, x, y)
+        while q[0] > 0:
+            q = (q[0] - 1, q[1] // 2, q[2] // 2)
+            if q not in tree:
+                missing.append(q)
+    if missing:
+        bad("toast-fits-ancestors-missing", "ancestors of populated leaves were not produced: %r" % (sorted(set(missing))[:4],))
+    # every tile's range = range of the leaves beneath it
+    for pos, (arr, hdr) in sorted(tree.items()):
+        vals = [t[0][np.isfinite(t[0])] for p, t in leaves.items() if (p[1] >> (3 - pos[0]), p[2] >> (3 - pos[0])) == (pos[1], pos[2])]
+        vals = [v for v in vals if v.size]
+        if not vals or not hdr:
+            continue
+        l2, h2 = np.float32(min(v.min() for v in vals)), np.float32(max(v.max() for v in vals))
+        if not (np.isclose(hdr["DATAMIN"], l2, rtol=2e-7) and np.isclose(hdr["DATAMAX"], h2, rtol=2e-7)):
+            bad("range/differs-from-leaf-range/inner", "TOAST FITS tiling: tile %r records %r/%r, leaves beneath span %r/%r" % (pos, hdr["DATAMIN"], hdr["DATAMAX"], float(l2), float(h2)))
+            break
+
+
 def _builder_job(job):
     part = Part()
     with scratch("c14") as d:
         for (start, pop, nanleaf) in job:
             builder_case(d, start, pop, part, nanleaf)
         updated_leaves_case(d, part)
+        if job and job[0][0] == 1 and len(job[0][1]) == 1:
+            toast_fits_case(d, part)
         part.sample({"builder_cascade": True, "start": job[0][0], "population": list(job[0][1]), "all_nan_leaf": job[0][2]})
     return part
 
@@ -130,7 +199,7 @@ def _job(j):
 
 def run(tier, seed):
     rep = Report(PROP, tier, seed, "model_checking")
-    kinds = ["fits-F32", "fits-F32z", "fits-F32n"] + (["fits-F64"] if tier == "thorough" else [])
+    kinds = ["fits-F32", "fits-F32z", "fits-F32n", "fits-F32c"] + (["fits-F64"] if tier == "thorough" else [])
     rep.rule = (
         "every sparse FITS leaf population of the C02 family (depth 1: all 16 subsets; depth 2: %d populations%s), serial cascade: DATAMIN/DATAMAX of "
         "every tile vs the finite leaf range beneath it, ImageSet and WTML range vs the root; parallel cascade under the virtual scheduler, all "
@@ -159,6 +228,13 @@ def run(tier, seed):
 
 def replay(payload):
     r = payload["replay"]
+    if r.get("toast_fits"):
+        part = Part()
+        with scratch("c14r") as d:
+            toast_fits_case(d, part)
+        for sig, (detail, _) in part.violations.items():
+            print("REPLAY-FAIL", sig, detail[:400])
+        return 1 if part.violations else 0
     if r.get("updated_leaves"):
         part = Part()
         with scratch("c14r") as d:
